@@ -55,8 +55,10 @@ META = {
         "from self.rules.get/[..], getattr(self, <render_* name from an f-string or a class-level table>) - and the docutils callback edges "
         "are special edges, recognised by structure) shows that no exception MyST raises itself and no exception of a catalogued fallible "
         "library call on document-, front-matter- or file-controlled data reaches one of the nine front-end entries; API functions may only "
-        "leak their documented class. Catalogue: yaml load (YAMLError classes and the plain ValueError of PyYAML's scalar constructors, read "
-        "from yaml/constructor.py), json.dumps, chr, int(str) (discharged by digit-set tests, also inter-procedurally through a parameter or "
+        "leak their documented class. Catalogue: a directive's run() (foreign code: Exception - docutils' own Figure.run raises IndexError; discharged by the "
+        "catch-all of run_directive, which re-raises only docutils' SystemMessage halt), yaml load (YAMLError classes; the plain ValueError / "
+        "KeyError / IndexError / AttributeError of PyYAML's scalar constructors for matched and for explicitly tagged scalars, read from "
+        "yaml/constructor.py; RecursionError because the Composer recurses per nesting level, read from yaml/composer.py), json.dumps, chr, int(str) (discharged by digit-set tests, also inter-procedurally through a parameter or "
         "a pure observation such as stream.peek()), file/URL access, Path stat, jinja2, HTMLParser.feed, Lexer, parselinenos, import_module, "
         "2-argument getattr (discharged for dataclass field names and for class-level method-name tables), next() (discharged for itertools "
         "infinite iterators), urlparse/urlsplit, Sphinx's env.relfn2path() and download_reference(reftarget=..) on text that went through "
@@ -87,7 +89,16 @@ META = {
         "getattr+default unless the package itself stored it: in the function, at every call site, or - for code that only runs after the "
         "parse - on every path of render(). R17 a nodes.transition is attached only to a node that is provably the document or a section, because docutils' "
         "Transitions transform (part of the standard pipeline) asserts that for a transition that is the first child of its parent (read "
-        "from docutils/transforms/misc.py; render_hr is the known finding F9). R11 also requires ignoreInvalid=True when configured names go to MarkdownIt.disable() (it raises "
+        "from docutils/transforms/misc.py; render_hr is the known finding F9). R18 a document cannot choose code that the parse runs: global_only configuration fields are refused in the file-level merge "
+        "(every application of a front-matter value - setattr/validate_field or a helper doing it - is dominated by the refusal) and template "
+        "expressions are rendered in a jinja2 SandboxedEnvironment (an unsandboxed render is also a SystemExit origin in R1). R19 the "
+        "configuration stored on the Sphinx environment controls its pickled state (__getstate__) for fields that can hold a function. R20 a "
+        "transform that deletes a node attribute reads it only under a membership test (transforms run twice for rST include with :parser:). "
+        "R21 the renderer's finalisation drops queued transforms whose pending node left the document. R22 pending(Filter, component=..) "
+        "nodes only name transformer components that always exist (html_meta's component='writer' is a known finding). R5 also flags a "
+        "method that re-enters itself without arguments (recursion standing for a loop: depth = number of iterations). R17 accepts a "
+        "transition below any parent when a registered transform with a priority below docutils' Transitions replaces every transition whose "
+        "parent is not the document / a section (HideNestedTransitions). R11 also requires ignoreInvalid=True when configured names go to MarkdownIt.disable() (it raises "
         "ValueError for unknown names, read from markdown_it/main.py)."
     ),
     "not_decided": (
@@ -97,6 +108,9 @@ META = {
         "attributes is not modelled; "
         "exceptions inside third-party directive/role bodies and inside docutils/Sphinx transforms; termination and totality of markdown-it "
         "itself beyond the catch-all block rule (R11); value-dependent builtins such as max() of an empty sequence or pop() of an empty list; "
+        "implicit IndexError of `children[0]` / `stack.pop()` on structures a directive or the HTML tokenizer may leave empty (FigureMarkdown.run "
+        "a3d15c8, Tree.enclose 3911a89) and implicit KeyError of docutils node attributes whose presence is a writer-side invariant (only the "
+        "self-inflicted case - an attribute the same transform deletes - is decided, R20); "
         "None values placed into node lists (C14.R5); loops whose progress goes through helper functions or aliases (ANALYSIS-ERROR); "
         "recursion DEPTH on pathologically nested input is decided for the catalogued PyYAML entry points only (yaml.safe_load/load: "
         "RecursionError is part of the catalogue entry because Composer.compose_node recurses per nesting level, read from yaml/composer.py); "
@@ -107,12 +121,12 @@ META = {
         "CPython ast",
         "frozen special call edges (DESIGN E3) plus the structurally recognised spellings of the render dispatch",
         "catalogue of fallible library calls (DESIGN C01.R1, extended in rounds 2-5)",
-        "docutils callback contracts (directives raise DirectiveError only; option converters raise ValueError/TypeError)",
+        "docutils callback contracts for roles and option converters (converters raise ValueError/TypeError); a directive's run() is NOT trusted any more (catalogued as Exception)",
         "halt_level above SEVERE so reporter calls return a node",
         "sibling sources read: yaml/constructor.py, markdown_it/parser_block.py + rules_block, mdit_py_plugins, docutils/nodes.py",
     ],
     "assumptions": [
-        "third-party directives/roles follow the docutils contract",
+        "third-party roles follow the docutils contract (directives need not: their failures are caught in run_directive)",
         "markdown-it terminates (given its catch-all block rule) and sets token.map on block tokens",
         "a heading token's tag digit / marker length is >= 1 (the base term of the heading level, R14)",
         "streams are finite; trees are finite",
